@@ -188,6 +188,7 @@ def r13_3(cx):
     cx.floor('R13.3', 'public entries reaching the overlapping stepper', n, 4)
     # (b) FindOverlappingIter construction, (c) StreamChunkIter construction
     nb = nc = 0
+    sci_sites = []
     for p, b in f.bodies.items():
         for blk, si, pl, st in b.stores():
             r = st.get('r') if si != 'term' else None
@@ -209,21 +210,54 @@ def r13_3(cx):
                     cx.report('R13.3', b, 'FindOverlappingIter/' + tag, ok, ('construction is behind %s' if ok else 'FindOverlappingIter is constructed on a path that does not pass %s') % what, line_of(b, blk, si))
             if r['adt'] == 'automaton::StreamChunkIter':
                 nc += 1
-                agg = b.rvalue_term(r, 0, blk)
-                aut = peel_all(expand_vars(b, agg[3].get('aut'))) if isinstance(agg[3], dict) else None
-                g1 = [e for g in bool_gates(b, std_gate) for e in g[2]]
-                g2 = []
-                for g in bool_gates(b, lambda x: zero_test(x, aut) is not None):
-                    taken_when_zero = zero_test(g[1], aut)
-                    g2 += g[3] if taken_when_zero else g[2]
-                g3 = [e for g in result_gates(b, lambda x: is_call(x, r'Automaton::start_state$') and peel_all(expand_vars(b, x[2][0])) == aut and is_agg(expand_vars(b, x[2][1]), r'Anchored$', 'No')) for e in g[2]]
-                for tag, cut, what in (('is_standard', g1, 'match_kind().is_standard()'), ('non-empty', g2, 'min_pattern_len() != 0'), ('start_state', g3, 'start_state(Anchored::No)?')):
-                    ok = bool(cut) and not reachable_without(b, [blk], cut)
-                    cx.report('R13.3', b, 'StreamChunkIter/' + tag, ok, ('construction is behind %s' if ok else 'StreamChunkIter is constructed on a path that does not pass %s') % what, line_of(b, blk, si))
-                st_t = expand_vars(b, agg[3].get('start')) if isinstance(agg[3], dict) else None
-                sid_t = expand_vars(b, agg[3].get('sid')) if isinstance(agg[3], dict) else None
-                ok = st_t is not None and st_t == sid_t
-                cx.report('R13.3', b, 'StreamChunkIter/sid=start', ok, 'initial sid is the probed start state' if ok else 'sid %s differs from start %s' % (tstr(sid_t), tstr(st_t)), line_of(b, blk, si))
+                sci_sites.append((p, b, blk, si))
+    # (c) on path summaries: every path that builds a StreamChunkIter has passed the three checks
+    from acverif.sym import summarize as _sm, canon as _cn, cstr as _cs, teval as _te, by_cstr as _by
+    from acverif.inline import vocab as _vocab
+    for p, b0, blk, si in sci_sites:
+        if p not in _vocab():
+            continue
+        b = cx.body(p)
+        AUT = None
+        rows = [r for r in _sm(cx.facts, b) if r.end == 'return']
+        built = []
+        for r in rows:
+            rt = r.ret
+            if rt is not None and is_agg(rt, r'Result$', 'Ok') and is_agg(rt[3]['0'], r'automaton::StreamChunkIter$'):
+                built.append(r)
+        why = {'is_standard': None, 'non-empty': None, 'start_state': None, 'sid=start': None}
+        if not built:
+            why = dict.fromkeys(why, 'no path builds a StreamChunkIter')
+        for r in built:
+            agg = r.ret[3]['0']
+            aut = _cs(agg[3]['aut'])
+            if r.cond(lambda c: is_call(_cn(c), r'MatchKind::is_standard$') and is_call(_cn(c)[2][0], r'Automaton::match_kind$') and _cs(_cn(c)[2][0][2][0]) == aut) is not True:
+                why['is_standard'] = 'StreamChunkIter is constructed on a path that does not pass match_kind().is_standard()'
+            ML = 'automaton::Automaton::min_pattern_len(%s)' % aut
+            nz = False
+            for c, v in r.conds:
+                try:
+                    z0, z1 = _te(c, _by({ML: 0})), _te(c, _by({ML: 1}))
+                except Exception:
+                    continue
+                if z0 == z1:
+                    continue
+                hold1 = (bool(z1) == v) if isinstance(v, bool) else ((z1 not in v[1]) if isinstance(v, tuple) else z1 == v)
+                hold0 = (bool(z0) == v) if isinstance(v, bool) else ((z0 not in v[1]) if isinstance(v, tuple) else z0 == v)
+                if hold1 and not hold0:
+                    nz = True
+            if not nz:
+                why['non-empty'] = 'StreamChunkIter is constructed on a path that does not pass min_pattern_len() != 0'
+            ss = [c[1] for c, v in r.conds if c[0] == 'discr' and is_call(c[1], r'Automaton::start_state$') and v == 0 and _cs(c[1][2][0]) == aut and is_agg(_cn(c[1][2][1]), r'Anchored$', 'No')]
+            if not ss:
+                why['start_state'] = 'StreamChunkIter is constructed on a path that does not pass start_state(Anchored::No)?'
+            else:
+                pay = _cs(('f', ('dc', ss[0], 'Ok'), '0'))
+                if _cs(agg[3]['start']) != pay or _cs(agg[3]['sid']) != pay:
+                    why['sid=start'] = 'start / sid are not the probed start state'
+        for tag, what in (('is_standard', 'match_kind().is_standard()'), ('non-empty', 'min_pattern_len() != 0'), ('start_state', 'start_state(Anchored::No)?')):
+            cx.report('R13.3', b, 'StreamChunkIter/' + tag, why[tag] is None, 'construction is behind %s' % what if why[tag] is None else why[tag], line_of(b0, blk, si))
+        cx.report('R13.3', b, 'StreamChunkIter/sid=start', why['sid=start'] is None, 'initial sid is the probed start state' if why['sid=start'] is None else why['sid=start'], line_of(b0, blk, si))
     cx.floor('R13.3', 'FindOverlappingIter construction sites', nb, 1)
     if cx.config in ('default', 'std', 'logging'):
         cx.floor('R13.3', 'StreamChunkIter construction sites', nc, 1)
